@@ -16,7 +16,7 @@ CHECKS = {
          "Trusts the harness specification (model/spec.go, model/preds.go), written from the documentation; cases whose coercion the documentation leaves open are skipped and counted; PostTransforms never fail in these cases.",
          "DESIGN.md section 5 C02"),
  "C03": (RAPID + "representation matrix x schema options; whole-destination comparison with the documented coercion table over sentinel-prefilled destinations",
-         "Generated inputs in every documented equivalent representation, WithCoercer, Time.Format layouts and global conf.Coercers overrides; destinations (generated with reflect.StructOf, including fields the schema does not name and non-nil pointers/slices) are pre-filled with sentinels; on success the whole destination must equal the specification's, and documented conversions must succeed. Exploration.",
+         "Generated inputs in every documented equivalent representation (incl. Go structs as data source), WithCoercer, Time.Format layouts and global conf.Coercers overrides; every value of the wild registry into a String schema must give its %v string; destinations (generated with reflect.StructOf, including fields the schema does not name and non-nil pointers/slices) are pre-filled with sentinels; on success the whole destination must equal the specification's, and documented conversions must succeed. Exploration.",
          "Trusts the coercion table in model/spec.go (from the docs); out-of-range numerics are left to C18; doc-silent representations are skipped and counted.",
          "DESIGN.md section 5 C03"),
  "C04": ("exhaustive enumeration of the absence decision table + " + RAPID + "random compositions",
@@ -40,11 +40,11 @@ CHECKS = {
          "Quantifies over a finite registry of Go types; harness callbacks are nil-safe so an observed panic is zog's; termination guarded by a time limit (exit 2).",
          "DESIGN.md section 5 C06"),
  "C07": (RAPID + "generated call histories (model = same call on cleared pools) with fault injection into the sync.Pools",
-         "Histories of calls, Collect*/Sanitize*AndCollect of earlier results, forced GC, panicking user callbacks and injection of dirty recycled objects (every exported field junk) into each of the seven pools; after every call the complete observable result (all issue fields, destination, context values seen by callbacks) must equal the result of the same call on freshly cleared pools. Exploration over histories; pool contents are owned deterministically through the exported pool variables.",
+         "Histories of calls (incl. zjson documents, and calls that reuse an earlier call's schema OBJECT with another destination type), Collect*/Sanitize*AndCollect of earlier results, forced GC, panicking user callbacks and injection of dirty recycled objects (every exported field junk) into each of the seven pools; after every call the complete observable result (all issue fields, destination, context values seen by callbacks) must equal the result of the same call on freshly cleared pools with a never-used schema object. Exploration over histories; pool contents are owned deterministically through the exported pool variables.",
          "Only this package imports zog/internals. Dirty objects are limited to shapes reachable through zog's API. Pristine reference computed with internals.ClearPools().",
          "DESIGN.md section 5 C07"),
  "C08": (RAPID + "generated concurrent workloads on shared schema objects under the Go race detector, per-call comparison with sequential results",
-         "Workloads of 8-32 goroutines hammering 3-8 shared schema objects with private data; the test binary is built with -race: any race report, or any call whose result differs from the sequential result, is a violation. Random schedule sampling amplified by the race detector's happens-before analysis; it cannot show absence of schedule-dependent bugs.",
+         "Workloads of 8-24 goroutines hammering 3-8 shared schema objects with private data (Go values and zjson documents, per-call formatters, lists that grow from workload to workload), started on COLD library state; the test binary is built with -race: any race report, any call whose issues differ from the executable specification, from a concurrent call of the same input, or from the same call alone afterwards, is a violation. Random schedule sampling amplified by the race detector's happens-before analysis; it cannot show absence of schedule-dependent bugs.",
          "The harness does not own the scheduler; a schedule-dependent failure is reported with the workload and the race report, not a replayable interleaving.",
          "DESIGN.md section 5 C08"),
  "C10": (RAPID + "generated nested schemas x tag sets x front ends; structural invariants on the issue map + path comparison with the specification + sanitizer round trip",
@@ -52,11 +52,11 @@ CHECKS = {
          "Expected paths from model/spec.go with the documented tag priority; tag values without commas/dots/brackets.",
          "DESIGN.md section 5 C10"),
  "C11": ("exhaustive catalogue of built-in tests x types x formatter configurations + " + RAPID + "random precedence of formatter levels",
-         "Part A enumerates every built-in test of every schema type, required / not_nil / coerce and the front-end decode failures, in both modes and five formatter configurations (default, i18n en/es/none/unknown language): code, type, params, value reference, non-empty message without placeholders. Part B: random schemas with marker messages at test, execution and global (plain or i18n) level: each issue must carry the most specific marker and the language of this execution's context. Exhaustive for the catalogue, exploration for precedence.",
+         "Part A enumerates every built-in test of every schema type, required / not_nil / coerce and the front-end decode failures, in both modes and five formatter configurations (default, i18n en/es/none/unknown language): code, type, params, value reference, non-empty message without placeholders. The message must be the rendering of THIS cell's language. Part B: random schemas with marker messages at test, execution and global (plain or i18n) level: each issue must carry the most specific marker and the language of this execution's context. Part C: consecutive undecodable requests under six formatter configurations must each carry their own execution's message. Exhaustive for the catalogue, exploration for precedence.",
          "Expected codes and param keys from zconst / reference.md (model/preds.go DefaultParams); Bool True/False accept either documented code.",
          "DESIGN.md section 5 C11"),
  "C12": (RAPID + "recorder callbacks everywhere; invariants over the totally ordered event log of one execution",
-         "Spec-free invariants over the log of callback invocations and issue creations: argument contract (value for primitive tests, non-nil pointer with the address of the governed destination otherwise, computed by reflection), ctx.Get equals exactly this call's WithCtxValue, PostTransform discipline (declaration order, at most once, stop at first error, never after an issue, all on success, error wrapped at the node's path), Preprocess failure silences the wrapped schema. Both modes, all nestings. Exploration.",
+         "Spec-free invariants over the log of callback invocations and issue creations: argument contract (value for primitive tests, non-nil pointer with the address of the governed destination otherwise, computed by reflection), ctx.Get equals exactly this call's WithCtxValue, PostTransform discipline (declaration order, at most once, stop at first error, never after an issue, all on success, error wrapped at the node's path), Preprocess failure (Parse: string-typed and any-typed functions; Validate: pointer-typed functions) silences the wrapped schema and every implied Preprocess issue is reported. One schema object placed at several positions with different destination types is covered by a dedicated sub-check. Both modes, all nestings. Exploration.",
          "Recorders are supplied by the harness and never panic; tests carry no Message so every issue passes the logging execution formatter.",
          "DESIGN.md section 5 C12"),
  "C13": (RAPID + "differential: Validate(&v) versus Parse(toMap(v), &fresh) on fully populated values",
@@ -68,7 +68,7 @@ CHECKS = {
          "Renderings a front end cannot express are skipped per front end and counted; strings are valid UTF-8 without edge white space.",
          "DESIGN.md section 5 C14"),
  "C15": ("exhaustive product method x Content-Type x body x query (23 520 requests) + " + RAPID + "random requests; source sentinels and recording coercers",
-         "Every request of the product is sent through zhttp.Request into a schema whose coercers record the raw value handed to each field; the expected source follows the statement's dispatch table (net/http decides which methods read a form body); undecodable bodies must give exactly one invalid_json/invalid_form issue at $root with the schema not run and the sentinel destination untouched; {} means all absent; repeated or []-suffixed parameters are lists, single ones strings, missing ones absent. Exhaustive over the product, exploration for random fragments.",
+         "Every request of the product (and a reduced product with a z.Ptr(z.Struct) root) is sent through zhttp.Request into a schema whose coercers record the raw value handed to each field; the expected source follows the statement's dispatch table (net/http decides which methods read a form body); undecodable bodies must give exactly one invalid_json/invalid_form issue at $root with the schema not run and the sentinel destination untouched; {} means all absent; repeated or []-suffixed parameters are lists, single ones strings, missing ones absent. Exhaustive over the product, exploration for random fragments.",
          "Content-Type spellings outside the documented form and JSON followed by trailing data are outside the domain (skipped).",
          "DESIGN.md section 5 C15"),
  "C16": (RAPID + "model-based state machine over derivation histories; every live schema re-probed against a hand-written equivalent after every step",
@@ -84,7 +84,7 @@ CHECKS = {
          "Schema-owned values are observed through references kept by the harness.",
          "DESIGN.md section 5 C19"),
  "C20": ("exhaustive sweeps over small alphabets/ranges + " + RAPID + "random strings and grammar-derived subjects; independent reference predicates",
-         "Single-test schemas in both modes: rune-class tests over every rune U+0000..U+02FF and class-edge pairs, length tests over n x byte-length grid, numeric comparisons over all pairs of boundary sets (incl. NaN, Inf, -0), slice and time tests, random prefix/suffix/contains/oneof/match, and Email/UUID/URL over generated grammar members and single-edit near misses; issue present iff the reference predicate is false. Exhaustive for the sweeps, exploration for the random parts.",
+         "Single-test schemas in both modes: rune-class tests over every rune U+0000..U+02FF and class-edge pairs, length tests over n x byte-length grid, numeric comparisons over all pairs of boundary sets (incl. NaN, Inf, -0), slice and time tests, the same tests on user-defined named types (StringSchema[T], NumberSchema[T], BoolSchema[T]) with Required on and off, pointer-element slices with pointer needles, random prefix/suffix/contains/oneof/match, and Email/UUID/URL over generated grammar members and single-edit near misses; issue present iff the reference predicate is false. Exhaustive for the sweeps, exploration for the random parts.",
          "Reference predicates in model/preds.go (hand-written recognisers, not regexes shared with zog); URL only over the certain classes; UUID version nibble not asserted.",
          "DESIGN.md section 5 C20"),
 }
